@@ -222,6 +222,9 @@ class Cell(object):
             return out
         if out == "accepted":
             vk = self.key("strict", mutation=cls, outcome=out)
+            vk.pop("curve", None)
+            if self.scheme != "pss":
+                vk.pop("modbits_mod8", None)
         else:
             # one mechanism per (key type, exception): the mutation class
             # is in the witness
@@ -1019,6 +1022,9 @@ def kex_bad(ctx, group, ver, cls, f, wit):
     else:
         out = "accepted"
     ctx.cell("kexcell", "%s/%s/%s" % (group, pair.VNAME[ver], cls))
+    wit = dict(wit, bad_class=cls)
+    if cls.startswith("low_order_"):
+        cls = "low_order_point"
     ctx.cell("kex_outcome", "%s/%s:%s" % (group, cls, out))
     if out == "accepted":
         ctx.violation({"clause": "kex_bad_share_accepted",
@@ -1042,9 +1048,10 @@ def kex_pos(ctx, group, ver, what, ok, wit):
     ctx.ev()
     ctx.count("kex_pos/" + group)
     if not ok:
-        ctx.violation({"clause": "kex_" + what, "group": group,
-                       "version": pair.VNAME[ver]}, wit,
-                      "%s %s" % (group, what))
+        ctx.violation({"clause": "kex_" + what,
+                       "family": kex_family(group),
+                       "version": pair.VNAME[ver]},
+                      dict(wit, group=group), "%s %s" % (group, what))
 
 
 def run_kex_ff(ctx, P):
